@@ -272,6 +272,7 @@ func (m *recoveryMessage) GetCommits(p dbft.ConsensusPayload[util.Uint256], vali
 
 	for i, c := range m.commitPayloads {
 		cc := fromPayload(commitType, p.(*Payload), &commit{signature: c.Signature})
+		cc.message.ViewNumber = c.ViewNumber
 		cc.message.ValidatorIndex = c.ValidatorIndex
 		cc.Sender = validators[c.ValidatorIndex].(*keys.PublicKey).GetScriptHash()
 		cc.Witness.InvocationScript = c.InvocationScript
